@@ -20,3 +20,15 @@ package config
 //@   modifies c.Name, c.Match[..]
 //@   ensures len(c.Match) == old(len(c.Match))
 //@   loop 1 invariant -1 <= rangeindex && rangeindex < len(c.Match)
+
+//@ func (s *Service) TrimSpace()
+//@   requires s != nil
+//@   modifies s.Name
+
+// ghost.scopeArg is a history variable: the most recent result of GetLocalizedScope, i.e. the
+// "scope=<connection's scope>" argument that the session authorizer injects (C11). The body
+// is a single fmt.Sprintf; the clause only names its result.
+//@ func (u User) GetLocalizedScope() (res string)
+//@   unverified history variable: names the result of this call for the caller's contract
+//@   modifies ghost.scopeArg
+//@   ensures ghost.scopeArg == seqof(res)
